@@ -20,7 +20,7 @@ func init() {
 		Assumptions: []string{"the prediction (refcose.PredictReencode) transcribes the property statement", "signature validity after discarding raw bytes is not demanded (the statement does not)"},
 		Real:        []string{"github.com/veraison/go-cose (decoders, encoders, Verify)", "github.com/fxamacker/cbor/v2"},
 		Stubs:       []string{"relay/store hops (decode + encode, raw kept or dropped)", "foreign peer (reference model)", "wire with benign fault injection", "entropy source"},
-		QuickRuns:   8000, ThoroughRuns: 300000,
+		QuickRuns:   200000, ThoroughRuns: 3000000,
 	}
 }
 
